@@ -5,8 +5,9 @@
                                  (pickle is a black box: its output is handed to the model)
      pre     = VTup [VInt 0] (absent) | VTup [VInt 1; VStr bytes] (file) | VTup [VInt 2; VList [VTup [name; VStr bytes]; ...]]
      name    = VTup [VInt 0; VInt i] (part-i) | VTup [VInt 1; VInt 0] (_SUCCESS) | VTup [VInt 2; VInt k] (old-k)
-     wfaults = VList [VTup [VInt call; VInt mode; VInt j]; ...]   mode 0 before, 1 after mkdir, 2 torn after j bytes
-     cfaults = VList [VTup [VInt partition; VInt attempt]; ...]
+     wfaults = VList [VTup [VInt call; VInt mode; VInt j; VInt cls]; ...]   mode 0 before, 1 after mkdir, 2 torn after j bytes
+     cfaults = VList [VTup [VInt partition; VInt attempt; VInt cls; VBool lazy]; ...]
+     cls     = 0 injector's own Exception | 1 OSError | 2 StopIteration | 3 GeneratorExit | 4 StopIteration from next() on an empty iterator
    result = VTup [outcome; final fs; VList history; VInt dump_calls; VBool locked; follow-up job; read-back; names]
      names = the real file names in the final directory (from the regenerated format), in byte order
      entries of a directory in name order; read-back = VNone when not read (no marker / failed save) *)
@@ -56,45 +57,71 @@ Definition enc_fs (f : fs) : val :=
   | FDir ch => VTup [VInt 2; VList (map (fun e => VTup [enc_name (fst e); VStr (snd e)]) (sort_entries ch))]
   end.
 
-Fixpoint dec_wfaults (l : list val) : option (list (nat * wfault)) :=
+Definition dec_cls (z : Z) : option cls :=
+  match z with
+  | 0 => Some KInjected | 1 => Some KOSError | 2 => Some KStop | 3 => Some KGenExit
+  | 4 => Some KStop      (* "natural": next() on an empty iterator inside the partition function *)
+  | _ => None
+  end.
+
+Fixpoint dec_wfaults (l : list val) : option (list (nat * (wfault * cls))) :=
   match l with
   | [] => Some []
-  | VTup [VInt k; VInt mode; VInt j] :: r =>
-      match dec_wfaults r with
-      | Some fs =>
+  | VTup [VInt k; VInt mode; VInt j; VInt c] :: r =>
+      match dec_wfaults r, dec_cls c with
+      | Some fs, Some k' =>
           match mode with
-          | 0 => Some ((Z.to_nat k, WBefore) :: fs)
-          | 1 => Some ((Z.to_nat k, WMkdir) :: fs)
-          | 2 => Some ((Z.to_nat k, WTorn (Z.to_nat j)) :: fs)
+          | 0 => Some ((Z.to_nat k, (WBefore, k')) :: fs)
+          | 1 => Some ((Z.to_nat k, (WMkdir, k')) :: fs)
+          | 2 => Some ((Z.to_nat k, (WTorn (Z.to_nat j), k')) :: fs)
           | _ => None
           end
-      | None => None
+      | _, _ => None
       end
   | _ => None
   end.
 
-Fixpoint dec_cfaults (l : list val) : option (list (nat * nat)) :=
+Fixpoint dec_cfaults (l : list val) : option (list (nat * nat * (cls * bool))) :=
   match l with
   | [] => Some []
-  | VTup [VInt i; VInt a] :: r =>
-      match dec_cfaults r with Some fs => Some ((Z.to_nat i, Z.to_nat a) :: fs) | None => None end
+  | VTup [VInt i; VInt a; VInt c; VBool lazy] :: r =>
+      match dec_cfaults r, dec_cls c with
+      | Some fs, Some k => Some ((Z.to_nat i, Z.to_nat a, (k, lazy)) :: fs)
+      | _, _ => None
+      end
   | _ => None
   end.
 
-Fixpoint find_wf (l : list (nat * wfault)) (k : nat) : option wfault :=
+Fixpoint find_wf (l : list (nat * (wfault * cls))) (k : nat) : option (wfault * cls) :=
   match l with
   | [] => None
   | (k', w) :: r => if Nat.eqb k k' then Some w else find_wf r k
   end.
 
-Definition mk_plan (w : list (nat * wfault)) (c : list (nat * nat)) : plan :=
-  mkplan (find_wf w) (fun i a => existsb (fun ia => Nat.eqb (fst ia) i && Nat.eqb (snd ia) a) c).
+Fixpoint find_cf (l : list (nat * nat * (cls * bool))) (i a : nat) : option (cls * bool) :=
+  match l with
+  | [] => None
+  | (i', a', c) :: r => if Nat.eqb i i' && Nat.eqb a a' then Some c else find_cf r i a
+  end.
+
+Definition mk_plan (w : list (nat * (wfault * cls))) (c : list (nat * nat * (cls * bool))) : plan :=
+  mkplan (fun k => match find_wf w k with Some x => Some (fst x) | None => None end)
+         (fun k => match find_wf w k with Some x => snd x | None => KInjected end)
+         (fun i a => match find_cf c i a with Some _ => true | None => false end)
+         (fun i a => match find_cf c i a with Some x => fst x | None => KInjected end)
+         (fun i a => match find_cf c i a with Some x => snd x | None => false end).
+
+Definition cls_name (own : string) (c : cls) : string :=
+  match c with
+  | KInjected => own | KOSError => "OSError" | KStop => "StopIteration" | KGenExit => "GeneratorExit"
+  end.
 
 Definition exn_name (e : exn) : string :=
   match e with
   | EExists => "FileAlreadyExistsException"
-  | EWrite => "InjectedWriteFault"
-  | ECompute => "InjectedComputeFault"
+  | EWrite c => cls_name "InjectedWriteFault" c
+  | ECompute c => cls_name "InjectedComputeFault" c
+  | ERuntime => "RuntimeError"
   | ELocked => "ContextIsLockedException"
   | ENotADir => "NotADirectoryError"
   | EIsADir => "IsADirectoryError"
@@ -159,7 +186,7 @@ Fixpoint dec_pickle_parts (l : list val) : option (list (bytes * list val)) :=
   end.
 Fixpoint unpickle (tbl : list (bytes * list val)) (b : bytes) : res (list val) :=
   match tbl with
-  | [] => Err EWrite   (* not a pickle the case knows: cannot happen on the states that are read back *)
+  | [] => Err ENoRetries   (* not a pickle the case knows: cannot happen on the states that are read back *)
   | (b', es) :: r => if list_N_eqb b b' then Ok es else unpickle r b
   end.
 
